@@ -72,7 +72,8 @@ type c07Conn struct {
 	hbAfter atomic.Bool // a heartbeat was delivered after ageing
 	tunnel  atomic.Bool // converted by Unregister (tunnel conversion)
 	everReg atomic.Bool // the harness saw it registered as a control connection at some point
-	stream  interface{}  // the stream AcceptConnection returned (stream.PackageStreamer)
+	regOnce atomic.Bool // regauth registered it already
+	stream  interface{} // the stream AcceptConnection returned (stream.PackageStreamer)
 }
 
 func (c *c07Conn) dead() (bool, string) {
@@ -107,20 +108,21 @@ func (o c07Op) String() string {
 }
 
 type c07World struct {
-	run     *vk.Run
-	sm      *SessionManager
-	cancel  context.CancelFunc
-	clients []int64
-	mu      sync.Mutex // guards slots/all/trace/seq in concurrent runs
-	slots   []*c07Conn
-	all     map[string]*c07Conn
-	seq     int
-	trace   []string
-	prevReg map[string]bool
-	left    int // connections that left the registry so far (evicted, closed, swept, converted)
-	base    ConnectionStats
-	conc    bool // concurrent phase: no per-op checks, no field reads
-	regOnly bool // -race mix: registry/session API calls only (no packet handlers)
+	run      *vk.Run
+	sm       *SessionManager
+	cancel   context.CancelFunc
+	clients  []int64
+	mu       sync.Mutex // guards slots/all/trace/seq in concurrent runs
+	slots    []*c07Conn
+	all      map[string]*c07Conn
+	seq      int
+	trace    []string
+	prevReg  map[string]bool
+	reported map[string]bool
+	left     int // connections that left the registry so far (evicted, closed, swept, converted)
+	base     ConnectionStats
+	conc     bool // concurrent phase: no per-op checks, no field reads
+	regOnly  bool // -race mix: registry/session API calls only (no packet handlers)
 }
 
 var (
@@ -138,7 +140,7 @@ func c07NewWorld(run *vk.Run, nslots, nclients, ctlCap int) *c07World {
 	cfg := &SessionConfig{HeartbeatTimeout: time.Hour, CleanupInterval: time.Hour, MaxConnections: 0, MaxControlConnections: ctlCap}
 	sm := NewSessionManagerWithConfig(c07IDMgr, ctx, cfg)
 	sm.SetAuthHandler(c07Auth{})
-	w := &c07World{run: run, sm: sm, cancel: cancel, slots: make([]*c07Conn, nslots), all: map[string]*c07Conn{}, prevReg: map[string]bool{}}
+	w := &c07World{run: run, sm: sm, cancel: cancel, slots: make([]*c07Conn, nslots), all: map[string]*c07Conn{}, prevReg: map[string]bool{}, reported: map[string]bool{}}
 	for i := 0; i < nclients; i++ {
 		w.clients = append(w.clients, int64(1001+i))
 	}
@@ -217,7 +219,7 @@ func c07SetLastActive(k *ControlConnection, t time.Time) {
 func (w *c07World) adapterCleanup(c *c07Conn, why string) {
 	_, known := w.sm.GetConnection(c.connID)
 	_ = w.sm.CloseConnection(c.connID)
-	if known && !c.srv.IsClosed() {
+	if known && !w.conc && !c.srv.IsClosed() {
 		w.run.Violation("C07:closeconnection-left-transport-open", map[string]any{"conn": c.connID, "trace": w.tail()})
 	}
 	c.srv.Close()
@@ -334,6 +336,11 @@ func (w *c07World) apply(op c07Op) bool {
 	if !w.conc && reg != nil && op.Kind == "fail" {
 		return false // a refused handshake on a registered connection changes nothing
 	}
+	if !w.conc && reg == nil && (op.Kind == "fail" || op.Kind == "login" || op.Kind == "tlogin") {
+		if cp := sm.getMaxControlConnections(); cp > 0 && sm.clientRegistry.Count() >= cp {
+			w.run.Count("register_at_cap", 1)
+		}
+	}
 	switch op.Kind {
 	case "login":
 		if !w.conc {
@@ -399,7 +406,10 @@ func (w *c07World) apply(op c07Op) bool {
 	case "regauth":
 		// registry API only: register (if absent) and authenticate, without the packet handler
 		w.log(op.String())
-		if reg == nil {
+		if reg == nil && !c.regOnce.Swap(true) {
+			// registered at most once per connection: re-registering a connection that a sweep is
+			// closing right now would make RemoveControlConnection read the new object's fields
+			// outside the registry lock (a report outside this property's allowlist)
 			sm.RegisterControlConnection(NewControlConnection(c.connID, c.stream.(stream.PackageStreamer), c.srv.RemoteAddr(), "tcp"))
 		}
 		_ = sm.UpdateControlConnectionAuth(c.connID, x, "")
@@ -420,7 +430,14 @@ func (w *c07World) apply(op c07Op) bool {
 	return true
 }
 
+// viol records a violation once per (class, subject) and world: a bad state that persists is
+// attributed to the operation after which it first appeared, not to every later operation.
 func (w *c07World) viol(sig string, op c07Op, extra map[string]any) {
+	key := sig + fmt.Sprint(extra["conn"], extra["client"])
+	if w.reported[key] {
+		return
+	}
+	w.reported[key] = true
 	d := map[string]any{"trace": w.tail(), "op": op.String()}
 	for k, v := range extra {
 		d[k] = v
@@ -555,8 +572,34 @@ func (w *c07World) check(op c07Op) {
 
 // step = operation, invariants, adapter cleanup, invariants.
 func (w *c07World) step(op c07Op) bool {
+	before := map[int64]*ControlConnection{}
+	for _, x := range w.clients {
+		before[x] = w.sm.GetControlConnectionByClientID(x)
+	}
 	if !w.apply(op) {
 		return false
+	}
+	// counted, not judged (the statement allows a lookup to return nothing): the index entry of X
+	// vanished although its holder is still registered, alive and authenticated as X
+	for x, k := range before {
+		if k == nil || w.sm.GetControlConnectionByClientID(x) != nil {
+			continue
+		}
+		if c := w.all[k.ConnID]; c != nil && (op.Slot != c.slot || op.Kind == "kick") {
+			if d, _ := c.dead(); !d && w.sm.GetControlConnection(k.ConnID) == k && k.Authenticated && k.ClientID == x {
+				w.run.Count("obs_index_lost_while_holder_untouched", 1)
+			}
+		}
+	}
+	if op.Kind == "login" {
+		x := w.clients[op.Cli]
+		if k := before[x]; k != nil {
+			if c := w.all[k.ConnID]; c != nil && c.slot != op.Slot {
+				if d, _ := c.dead(); !d && w.sm.GetControlConnection(k.ConnID) == k && w.sm.GetControlConnectionByClientID(x) != k {
+					w.run.Count("obs_duplicate_login_left_old_conn_registered", 1)
+				}
+			}
+		}
 	}
 	w.check(op)
 	if n := w.reap(); n > 0 {
@@ -725,7 +768,7 @@ func TestVerifC07RegistryRandom(t *testing.T) {
 	run.Rule("seeded random sequences of 30-100 enabled operations over 4 connection slots and clients A,B,C, control-connection cap 0 (none) or 3, drawn from the full registry-level alphabet plus CloseConnection from outside the read loop; invariants after every operation and after the adapter cleanup; distinct = 3-grams of executed operation kinds(+same/other-identity flag)")
 	r := run.Rand("seq")
 	alpha := append(c07Alphabet(4, 3, false), c07Op{"apiclose", 0, -1}, c07Op{"apiclose", 1, -1}, c07Op{"apiclose", 2, -1}, c07Op{"apiclose", 3, -1})
-	nseq := run.Pick(400, 20000)
+	nseq := run.Pick(2000, 40000)
 	for s := 0; s < nseq && run.Violations() <= 20; s++ {
 		capv := 0
 		if r.Intn(3) == 0 {
@@ -733,7 +776,7 @@ func TestVerifC07RegistryRandom(t *testing.T) {
 		}
 		w := c07NewWorld(run, 4, 3, capv)
 		n := 30 + r.Intn(71)
-		run.Case(fmt.Sprintf("rand%d", s), nil)
+		run.Case("random-sequence", s)
 		var grams []string
 		for i, tries := 0, 0; i < n && tries < 20*n; tries++ {
 			op := alpha[r.Intn(len(alpha))]
@@ -758,7 +801,7 @@ func TestVerifC07RegistryRandom(t *testing.T) {
 	run.Floor("duplicate_login_evicting", 50)
 	run.Floor("sweep_removed", 20)
 	run.Floor("sweep_spared_heartbeated_conn", 3)
-	run.Floor("reaped_after_fail", 1) // eviction of the oldest connection at the control-connection cap
+	run.Floor("register_at_cap", 5) // eviction of the oldest connection at the control-connection cap
 }
 
 // TestVerifC07RegistryConcurrent runs the operation mix from 8 goroutines. Each
@@ -771,9 +814,9 @@ func TestVerifC07RegistryConcurrent(t *testing.T) {
 	defer run.Finish()
 	regOnly := os.Getenv("VERIF_RACE") == "1"
 	const G = 8
-	rounds := run.Pick(150, 4000)
+	rounds := run.Pick(1500, 30000)
 	if regOnly {
-		rounds = run.Pick(150, 600)
+		rounds = run.Pick(300, 1500)
 	}
 	run.Rule(fmt.Sprintf("%d goroutines x 3 phases x 12 seeded random operations per round over 8 connection slots (one owner each) and clients A,B,C; own-slot operations: accept, login/tunnel-login/failed handshake, UpdateControlConnectionAuth, heartbeat, Unregister, disconnect command, peer EOF; global: KickOldControlConnection, ageing, stale sweep, CloseConnection of any slot, lookups; registry-only mix (no packet handlers) when run under -race: %v; invariants at barriers after adapter cleanup; distinct = round x phase outcomes (registered set shape)", G, regOnly))
 	run.Observe("registry_only_mix", regOnly)
@@ -781,7 +824,9 @@ func TestVerifC07RegistryConcurrent(t *testing.T) {
 	ownReg := []string{"accept", "accept", "regauth", "regauth", "regauth", "unreg", "close"}
 	global := []string{"kick", "kick", "age", "age", "sweep", "apiclose", "lookups"}
 	if regOnly {
-		global = []string{"kick", "kick", "age", "age", "sweep", "lookups"}
+		// ageing happens at the barriers in this mix: CleanupStale reads LastActiveAt of a stale
+		// connection without the connection's own mutex (client_registry.go:280)
+		global = []string{"kick", "kick", "sweep", "lookups"}
 	}
 	for rd := 0; rd < rounds && run.Violations() <= 20; rd++ {
 		capv := 0
@@ -790,9 +835,17 @@ func TestVerifC07RegistryConcurrent(t *testing.T) {
 		}
 		w := c07NewWorld(run, G, 3, capv)
 		w.regOnly = regOnly
-		run.Case(fmt.Sprintf("round%d", rd), nil)
+		run.Case("concurrent-round", rd)
 		ok := true
 		for ph := 0; ph < 3 && ok; ph++ {
+			if regOnly {
+				ra := run.Rand(fmt.Sprintf("r%d-p%d-age", rd, ph))
+				for _, k := range w.sm.clientRegistry.List() {
+					if ra.Intn(3) == 0 {
+						c07SetLastActive(k, time.Now().Add(-3*time.Hour))
+					}
+				}
+			}
 			w.conc = true
 			var wg sync.WaitGroup
 			for g := 0; g < G; g++ {
